@@ -8,7 +8,7 @@ NAMES = ['n', 'n2', 'o']
 MUTABLE = ['main', 'd1/a', 'd1/b', 'd2/a']
 IGNORED = ['d1/.hidden', 'd1/sub']
 KINDS = ['new', 'old', 'alias', 'both', 'fixed']
-VARIANTS = ['plain', 'renamed', 'same', 'split', 'renamed_same', 'same_same']
+VARIANTS = ['plain', 'renamed', 'same', 'split', 'renamed_same', 'same_same', 'removal']
 
 
 def stamp(f, t):
@@ -44,6 +44,8 @@ def defaults_for(variant, style=0, reason='r', since='s'):
     sc = ['project']
     if variant == 'plain':
         return [policy.RuleDefault('n', new_s, scope_types=sc)]
+    if variant == 'removal':
+        return [policy.RuleDefault('n', new_s, scope_types=sc, deprecated_for_removal=True, deprecated_reason=reason or 'r', deprecated_since=since)]
     if variant == 'renamed':
         return [policy.RuleDefault('n', new_s, deprecated_rule=dep, scope_types=sc)]
     if variant == 'renamed_same':
@@ -70,7 +72,7 @@ def snapshot_defaults(defaults):
     return out
 
 
-def new_enforcer(box, variant, enforce_new, defaults=None, overwrite=True):
+def new_enforcer(box, variant, enforce_new, defaults=None, overwrite=True, warn=False):
     from oslo_config import cfg
     from oslo_policy import policy
     conf = cfg.ConfigOpts()
@@ -78,7 +80,7 @@ def new_enforcer(box, variant, enforce_new, defaults=None, overwrite=True):
     e = policy.Enforcer(conf, policy_file=box.path('main'), overwrite=overwrite)
     conf.set_override('policy_dirs', box.dirs(), group='oslo_policy')
     conf.set_override('enforce_new_defaults', bool(enforce_new), group='oslo_policy')
-    e.suppress_deprecation_warnings = True
+    e.suppress_deprecation_warnings = not warn
     e.register_defaults(defaults if defaults is not None else defaults_for(variant))
     return e
 
@@ -119,12 +121,13 @@ def apply_fs(box, ev):
 class Live:
     """one long-lived enforcer with its own files, driven along a history"""
 
-    def __init__(self, rng, variant, enforce_new, defaults=None, via='enforce', overwrite=True):
+    def __init__(self, rng, variant, enforce_new, defaults=None, via='enforce', overwrite=True, warn=None):
         self.box = fsbox.Box(rng)
         self.variant, self.enforce_new, self.via, self.overwrite = variant, enforce_new, via, overwrite
         self.defaults = defaults if defaults is not None else defaults_for(variant)
         self.snap = snapshot_defaults(self.defaults)
-        self.e = new_enforcer(self.box, variant, enforce_new, self.defaults, overwrite)
+        self.warn = (rng.random() < 0.5) if warn is None else warn
+        self.e = new_enforcer(self.box, variant, enforce_new, self.defaults, overwrite, warn=self.warn)
         self.roles = ['dflt', 'old', 'nobody'] + [f + '@fixed' for f in MUTABLE]
         self.trace = []
         self.last_print = None
@@ -134,13 +137,23 @@ class Live:
         if ev[0] == 'load':
             rec = {'op': 'load', 'force': 1 if ev[1] else 0, 'raised': 0, 'dec': {n: [] for n in NAMES},
                    'fresh': {n: [] for n in NAMES}, 'printsame': 1, 'shared': 1, 'scopeblk': 1}
+            rec['warnon'] = 1 if self.warn else 0
+            rec['warn'] = []
             try:
+                import warnings as _w
+                with _w.catch_warnings(record=True) as caught:
+                    _w.simplefilter('always')
+                    self.e.load_rules(bool(ev[1]))          # exactly one load_rules call is observed
+                if self.warn:
+                    for w in caught:
+                        m = str(w.message)
+                        if 'was deprecated for removal' in m:
+                            rec['warn'].append(['removal', m.split('"')[1]])
+                        elif 'was deprecated in' in m and 'in favor of' in m:
+                            rec['warn'].append(['deprecated', m.split('in favor of "')[1].split('"')[0]])
                 if ev[1]:
-                    self.e.load_rules(True)
                     rec['dec'] = decisions(self.e, self.roles, 'rules')      # state right after the forced load
                 else:
-                    if self.via == 'rules':
-                        self.e.load_rules()
                     rec['dec'] = decisions(self.e, self.roles, self.via)
                 pr = str(self.e.rules)
                 if self.synced and self.last_print is not None and pr != self.last_print:
